@@ -592,6 +592,8 @@ void AtomicDesc(const void* addr, std::size_t size, int op, int order, int order
 void OpNow() noexcept;
 void OnFence(int order) noexcept;
 void OnMutex(const void* m, int ev) noexcept;
+void Access(const void* addr, std::size_t size, bool write, const void* pc) noexcept;
+std::uint64_t Accesses() noexcept;
 std::uint64_t Races() noexcept;
 void SetEnabled(bool on) noexcept;
 }  // namespace hb
@@ -714,6 +716,22 @@ void Die(const char* cls, const char* msg) {
 static std::string gProfile;
 const char* Profile() noexcept {
   return gProfile.c_str();
+}
+void RaceRead(const void* addr, std::size_t size) noexcept {
+#if SIM_RACE
+  hb::Access(addr, size, false, __builtin_return_address(0));
+#else
+  (void)addr;
+  (void)size;
+#endif
+}
+void RaceWrite(const void* addr, std::size_t size) noexcept {
+#if SIM_RACE
+  hb::Access(addr, size, true, __builtin_return_address(0));
+#else
+  (void)addr;
+  (void)size;
+#endif
 }
 bool RaceBuild() noexcept {
   return SIM_RACE != 0;
@@ -1323,7 +1341,7 @@ struct ExploreStats {
   std::uint64_t runs = 0, failures = 0, nontrivial = 0, skipped_known = 0, leak_unconfirmed = 0, other_class_failures = 0;
   std::uint64_t steps = 0, switches = 0, sim_ns = 0, choices = 0, max_fibers = 0;
   std::uint64_t f_preempt = 0, f_forced = 0, f_cas = 0, f_spur = 0, f_jitter = 0, f_pick = 0;
-  std::uint64_t tracked_copies = 0, tracked_moves = 0;
+  std::uint64_t tracked_copies = 0, tracked_moves = 0, hb_accesses = 0;
   std::uint64_t strat_inj[9] = {};
 };
 ExploreStats gStats;
@@ -1378,6 +1396,7 @@ void PrintStats(const char* tag, double wall) {
     j.KV(names[i], static_cast<unsigned long long>(gStats.strat_inj[i]));
   }
   j.End();
+  j.KV("hb_plain_accesses_checked", static_cast<unsigned long long>(gStats.hb_accesses));
   j.KV("tracked_copies", static_cast<unsigned long long>(gStats.tracked_copies));
   j.KV("tracked_moves", static_cast<unsigned long long>(gStats.tracked_moves));
   j.Key("counters").Obj();
@@ -1592,6 +1611,9 @@ int Explore(const Args& a) {
         }
       }
     }
+#if SIM_RACE
+    gStats.hb_accesses += hb::Accesses();
+#endif
     gStats.tracked_copies = detail::gTrackedCopies;
     gStats.tracked_moves = detail::gTrackedMoves;
     // non-trivial: at least two fibers actually interleaved (some fiber was switched away from and resumed later)
